@@ -4,7 +4,7 @@
    The theorems state that this decoder is the inverse of the spec's M, so "the model decodes it back" means
    "it is the spec's encoding". *)
 From Coq Require Import List NArith ZArith.
-From CandidV Require Import model.Leb model.Coerce model.Hash proofs.WireProofs proofs.HashProofs proofs.SubProofs proofs.LebProofs proofs.SlebProofs.
+From CandidV Require Import model.Leb model.Coerce model.Hash model.TypeSer proofs.TypeSerProofs proofs.WireProofs proofs.HashProofs proofs.SubProofs proofs.LebProofs proofs.SlebProofs.
 Open Scope N_scope.
 
 Theorem C03_value_roundtrip : forall v E t out f rest,
@@ -26,8 +26,48 @@ Proof. exact ascending_is_fixed_by_sort. Qed.
 Theorem C03_type_comparison : forall E a b, eq_dec E a b = true <-> TyEq E a b.
 Proof. exact eq_dec_correct. Qed.
 
+(* The encoder's type-table builder AS IT IS (model/TypeSer.v mirrors TypeSerialize::build_type / encode / serialize and is
+   compared byte for byte with to_bytes_with_types on every run, op m.c03.encode).  For every environment and argument
+   list on which it succeeds -- any sharing, any recursion, any order of definitions:
+   the map and the table stay consistent (every index below the table length, every slot reserved for exactly one key
+   and filled with the entry of that key's type, nothing left under construction) ... *)
+Theorem C03_table_invariant : forall E f ts s,
+  build_all f E ([], []) ts = Some s -> Inv E s [] /\ Forall (referable E s) ts.
+Proof. exact build_all_inv. Qed.
+
+(* ... and the header it writes is read back by the specification's header grammar, consuming exactly the header:
+   a table of [n] entries, each of them a COMPOSITE type (opt, vec, record, variant, func, service; never a primitive,
+   never a future type) whose references are primitive codes or indices below [n], followed by one such reference
+   per argument.  (Hypotheses: the numeric limits of the grammar -- ids below 2^32, counts below 2^64, valid UTF-8
+   method names, at most one mode -- for the types that got a table entry.) *)
+Theorem C03_header_reads : forall E ts h,
+  enc_header E ts = Some h ->
+  (forall s, build_all (build_fuel E ts) E ([], []) ts = Some s -> keys_wf E s /\ (Z.of_nat (len s) < 2 ^ 63)%Z) ->
+  lenN ts < 2 ^ 64 ->
+  exists n es rs,
+    length es = n /\ Forall (entry_ok n) es /\ length rs = length ts /\ Forall (idx_ok n) rs /\ forall rest, read_header_raw (h ++ rest) = Ok (es, rs, rest).
+Proof. exact enc_header_reads. Qed.
+
+(* non-vacuity: a recursive list type behind two aliases, a function and a service that share it; the header the model
+   writes is accepted by the complete header parser (with all its side conditions) and the argument types read back are
+   equal, up to unfolding, to the ones given *)
+Example C03_header_ex :
+  let E := [([108], TOpt (TRec [(0, TPrim PNat); (1, TVar [108])])); ([97], TVar [108]); ([98], TVar [97]);
+            ([102], TFunc [TVar [98]; TVec (TVar [108])] [TVar [97]] [1]); ([115], TServ [([103], TVar [102])])] in
+  let ts := [TVar [98]; TVar [115]; TVec (TVar [108]); TVar [108]] in
+  match enc_header E ts with
+  | Some h => match dec_header_raw 10000 (magic ++ h ++ [7; 7]) with
+              | Ok (Ew, tws, rest) => list_eqb N.eqb rest [7; 7] && forallb (fun p => eq_dec (Ew ++ E) (fst p) (snd p)) (combine tws ts)
+                                      && Nat.eqb (length tws) (length ts)
+              | _ => false end
+  | None => false
+  end = true.
+Proof. vm_compute. reflexivity. Qed.
+
 Print Assumptions C03_value_roundtrip.
 Print Assumptions C03_nat_is_leb.
 Print Assumptions C03_int_is_sleb.
 Print Assumptions C03_header_fields_ascending.
 Print Assumptions C03_type_comparison.
+Print Assumptions C03_table_invariant.
+Print Assumptions C03_header_reads.
